@@ -495,9 +495,10 @@ def finding_of(d, direction):
     """known-finding key of one leaf difference (exact signatures), or None"""
     _, kind, want, got = d
     if kind == "merge":
-        return "string-key-merge-dropped"
-    if kind == "i" and is_bigint_float_signature(d):
-        return "json-int-above-2p53" if direction == "json" else None
+        # only through yq's own YAML (yaml.v3 writes the string key << unquoted); explode itself keeps string keys
+        return "yaml-merge-like-string-key-unquoted" if direction == "json" else None
+    if kind == "i" and is_bigint_float_signature(d) and not (-TWO63 <= want < TWO63):
+        return "json-int-beyond-int64-float" if direction == "json" else None
     if direction == "json" and kind == "s" and isinstance(got, str) and want.startswith("\n") and got == want[1:]:
         return "yaml-literal-leading-newline-lost"
     return None
@@ -849,7 +850,8 @@ def run(chk):
     for _ in range(n_rt):
         g = gen_gt(rng, 0, rng.choice([1, 2, 3, 4]))
         rt_docs.append(g)
-    big_docs = [GT("i", TWO53 + 1, str(TWO53 + 1)), GT("a", items=[GT("i", z, str(z)) for z in (TWO53 + 1, -(TWO53 + 1), TWO63 - 1, 2 ** 60 + 1)])]
+    big_docs = [GT("i", TWO53 + 1, str(TWO53 + 1)), GT("a", items=[GT("i", z, str(z)) for z in (TWO53 + 1, -(TWO53 + 1), TWO63 - 1, -TWO63, 2 ** 60 + 1)]),
+                GT("a", items=[GT("i", z, str(z)) for z in (TWO63, -TWO63 - 1, TWO64)])]
     srcs = [gt_json(g).encode("utf-8") for g in rt_docs + big_docs]
     # scalar unwrapping (default on for -o=yaml) only matters for a top-level scalar; it is off here and replayed as a known finding below
     first = run_yq_many([(["-p=json", "-o=yaml", "--unwrapScalar=false", "."], s) for s in srcs])
